@@ -598,6 +598,16 @@ func (c *evalCtx) call(x *ast.CallExpr) tval {
 		return tval{BoolLit(true), tBool}
 	case "iff":
 		return tval{Ident(c.term(arg(0)), c.term(arg(1))), tBool}
+	case "cur":
+		// cur(p): the current value of parameter p when it lives in a memory cell (address taken); the bare
+		// name p always denotes the value at entry
+		name := identArg(0)
+		if v, ok := c.vars["&"+name]; ok {
+			if pt, isP := v.T.Underlying().(*types.Pointer); isP {
+				return tval{c.r.v.readLoc(c.st, c.cur, c.r.v.derefLoc(v.V, pt.Elem())), pt.Elem()}
+			}
+		}
+		return c.ident(name)
 	case "letin":
 		// letin(x, e, body): body with x standing for the value e has here (also inside old(...) in body)
 		return c.bind(identArg(0), c.eval(arg(1))).eval(arg(2))
